@@ -30,6 +30,7 @@ type frame struct {
 	panicking        bool
 	panic            interface{}
 	phitemps         []Value
+	stackLen         int
 }
 
 func deref(t types.Type) types.Type {
@@ -642,14 +643,22 @@ func (ex *Exec) execFunction(caller *frame, fn *ssa.Function, args []Value, env 
 		panic(abortPath{outBudget, "call depth exceeded in " + fn.String()})
 	}
 	ex.callStack = append(ex.callStack, fn)
+	ex.lastFn = fn
+	stackLen := len(ex.callStack)
+	normal := false
 	defer func() {
 		ex.depth--
-		ex.callStack = ex.callStack[:len(ex.callStack)-1]
+		if normal {
+			// on a panic the stack is left in place for diagnostics; whoever
+			// recovers (runFrame, vPanics) truncates it
+			ex.callStack = ex.callStack[:stackLen-1]
+		}
 	}()
 	if !ex.funcs[fn] {
 		ex.funcs[fn] = true
 	}
 	if r, ok := ex.tryMerged(fn, args, env); ok {
+		normal = true
 		return r
 	}
 	fr := &frame{ex: ex, caller: caller, fn: fn}
@@ -666,9 +675,11 @@ func (ex *Exec) execFunction(caller *frame, fn *ssa.Function, args []Value, env 
 	for i, fv := range fn.FreeVars {
 		fr.env[fv] = env[i]
 	}
+	fr.stackLen = stackLen
 	for fr.block != nil {
 		fr.runFrame()
 	}
+	normal = true
 	return fr.result
 }
 
@@ -683,6 +694,7 @@ func (fr *frame) runFrame() {
 		}
 		fr.panicking = true
 		fr.panic = r
+		fr.ex.callStack = fr.ex.callStack[:fr.stackLen]
 		fr.runDefers()
 		fr.block = fr.fn.Recover
 		if fr.block == nil {
